@@ -44,8 +44,10 @@ pub fn strategy() -> BoxedStrategy<C17Case> {
         1200 => (
             prop_oneof![3 => 1i32..65, 3 => Just(libc::SIGCHLD), 1 => any::<i32>()],
             prop_oneof![5 => proptest::sample::select(codes), 1 => any::<i32>(), 1 => -10i32..140],
-            any::<i32>(),
-            any::<u32>(),
+            // boundary identities matter: pid 0 / uid 0 is what a receiver sees for a root sender
+            // in an outer pid namespace
+            prop_oneof![6 => any::<i32>(), 2 => Just(0i32), 1 => Just(1i32), 1 => Just(-1i32), 1 => Just(i32::MAX)],
+            prop_oneof![6 => any::<u32>(), 2 => Just(0u32), 1 => Just(u32::MAX), 1 => Just(65534u32)],
             proptest::collection::vec(any::<u8>(), 0..100),
         )
             .prop_map(|(signo, code, pid, uid, fill)| C17Case::Synth { signo, code, pid, uid, fill }),
@@ -491,6 +493,9 @@ fn extra(def: &PropDef, _args: &WorkerArgs, report: &mut WorkerReport) {
     for code in [libc::SI_USER, SI_KERNEL, libc::SI_QUEUE, SI_TIMER, SI_MESGQ, SI_ASYNCIO, SI_SIGIO, SI_TKILL, 1, 2, 3, 4, 5, 6, 7, -7] {
         for signo in [libc::SIGCHLD, libc::SIGUSR1, 64] {
             cases.push(C17Case::Synth { signo, code, pid: 4242, uid: 1717, fill: vec![0xAB; 100] });
+            for (pid, uid) in [(0, 0u32), (0, 1000), (1, 0), (-1, u32::MAX)] {
+                cases.push(C17Case::Synth { signo, code, pid, uid, fill: vec![0; 100] });
+            }
         }
     }
     cases.push(C17Case::Reentrant { signo: libc::SIGUSR1, code: libc::SI_QUEUE, pid: 4242, uid: 77, iters: 250_000 });
@@ -512,7 +517,7 @@ fn replay(v: &Value) -> CaseReport {
 pub static C17: PropDef = PropDef {
     id: "C17",
     prefixes: &["C17/"],
-    rule: "two generated domains: (1) synthetic 128-byte siginfo images (signal 1..64/any, si_code from every code the extractor distinguishes + neighbours + random, random pid/uid/filler) decoded in-process by Origin::extract and compared with an independent reference decoder; (2) real deliveries in a forked child: mechanism {kill(self), raise, pthread_kill, sigqueue, kill from a child, child exited/killed/stopped/continued, alarm, setitimer, timer_create} x signal, read through SignalsInfo<WithOrigin> and by a raw reader in a register_sigaction action; worker 0 enumerates all mechanisms and all distinguished codes. Oracle: signal number, cause class per mechanism, pid/uid == getpid/getuid or the child's, no process for kernel/timer origins or unknown codes. Non-trivial = distinguished code or real delivery; distinct = (signo, code, pid, uid) / (mechanism, signal)",
+    rule: "two generated domains: (1) synthetic 128-byte siginfo images (signal 1..64/any, si_code from every code the extractor distinguishes + neighbours + random, random and boundary pid/uid (0, 1, -1, MAX; pid 0 with uid 0 = a root sender outside the receiver's pid namespace), random filler) decoded in-process by Origin::extract and compared with an independent reference decoder; (2) real deliveries in a forked child: mechanism {kill(self), raise, pthread_kill, sigqueue, kill from a child, child exited/killed/stopped/continued, alarm, setitimer, timer_create} x signal, read through SignalsInfo<WithOrigin> and by a raw reader in a register_sigaction action; worker 0 enumerates all mechanisms and all distinguished codes. Oracle: signal number, cause class per mechanism, pid/uid == getpid/getuid or the child's, no process for kernel/timer origins or unknown codes. Non-trivial = distinguished code or real delivery; distinct = (signo, code, pid, uid) / (mechanism, signal)",
     assumptions: &["Linux si_code constants and the x86-64/aarch64 siginfo layout (si_pid at offset 16, si_uid at 20) are written independently in the harness"],
     cases: (4000, 200_000),
     shrink_iters: 500,
